@@ -129,6 +129,13 @@ type Perm struct {
 	// tracked update times that may only be written on create
 	TouchedMs int64     `gorm:"autoUpdateTime:milli;<-:create"`
 	SeenAt    time.Time `gorm:"autoUpdateTime;<-:create"`
+	// an embedded struct repeating the Go name of a create-only top-level field
+	// (its own column is writable; the top-level one stays create-only)
+	Audit PermAudit `gorm:"embedded;embeddedPrefix:audit_"`
+}
+
+type PermAudit struct {
+	CreateOnly int
 }
 
 // ---- eager loading with composite keys (C11)
